@@ -133,13 +133,14 @@ Definition m_resolve_abs (f : fs) (p : path) : res path := m_resolve_from f [] p
 
 (* is_dir / is_file / exists / stat are only ever applied to completely resolved paths (the translator's types
    enforce it), on which stat and lstat agree.  pathlib swallows ENOENT, ENOTDIR, EBADF and ELOOP in the three
-   predicates, not ENAMETOOLONG. *)
+   predicates, not ENAMETOOLONG (Model.Static.enametoolong: the first over-long component is looked up in an
+   existing directory). *)
 Definition m_is_dir (f : fs) (p : path) : res bool :=
-  if name_too_long p then toolong else Ok (match lstat f p with Some Dir => true | _ => false end).
+  if enametoolong f p then toolong else Ok (match lstat f p with Some Dir => true | _ => false end).
 Definition m_is_file (f : fs) (p : path) : res bool :=
-  if name_too_long p then toolong else Ok (match lstat f p with Some (File _) => true | _ => false end).
+  if enametoolong f p then toolong else Ok (match lstat f p with Some (File _) => true | _ => false end).
 Definition m_exists (f : fs) (p : path) : res bool :=
-  if name_too_long p then toolong else Ok (match lstat f p with Some _ => true | None => false end).
+  if enametoolong f p then toolong else Ok (match lstat f p with Some _ => true | None => false end).
 Definition m_st_size (f : fs) (p : path) : res N :=
   match lstat f p with
   | Some (File c) => Ok (N.of_nat (length c))
@@ -157,13 +158,14 @@ Definition m_listing (f : fs) (d : path) (url_path : str) : res gbody :=
   if existsb (fun ch => match follow f (d ++ [fst ch]) with None => true | Some _ => false end) (children f d)
   then Err e_os (lit "stat") else Ok (GListing d).
 
+(* pathlib's mkdir(parents=True, exist_ok=True) creates the missing ancestors from the top: those before the first
+   over-long component exist by the time ENAMETOOLONG is met *)
 Definition m_mkdir_parents (f : fs) (p : path) : res unit * fs :=
-  if name_too_long p then (toolong, f)
-  else match mkdirs (S (S (length p))) f [] p with
-       | Some f1 => (Ok tt, f1)
-       | None => (Err (lit "FileExistsError") [], f)
-       end.
-(* exclusive creation: nothing is created when it fails *)
+  match mkdirs (S (S (length p))) f [] (short_prefix p) with
+  | Some f1 => if name_too_long p then (toolong, f1) else (Ok tt, f1)
+  | None => (Err (lit "FileExistsError") [], f)
+  end.
+(* exclusive creation: nothing is created when it fails (the directory of p exists: the handler has just created it) *)
 Definition m_open_new (f : fs) (p : path) : res unit * fs :=
   if name_too_long p then (toolong, f)
   else match lstat f p with
